@@ -103,11 +103,9 @@ def register_spec_fun(name, args, res, smtname):
 
 
 def _simp_seqof(t):
-    """(seqof (v_list X)) -> X, repeatedly (keeps E-matching patterns syntactically aligned)."""
-    from .terms import _balanced
-    while t.startswith("(seqof (v_list ") and t.endswith("))") and _balanced(t[7:-1]) and _balanced(t[15:-2]):
-        t = t[15:-2]
-    return t
+    """Sequence term for membership atoms: (seqof (v_list X)) -> X; (seqof x) -> (lseq x) (pattern-safe alias)."""
+    from .terms import mseq
+    return mseq(t)
 
 
 class SpecEval:
@@ -200,6 +198,8 @@ class SpecEval:
             k = a.kind or b.kind
             ctor = "v_list" if k == "list" else "v_tuple"
             return Val(f"({ctor} (seq.++ (seqof {asV(a)}) (seqof {asV(b)})))", kind=k)
+        if isinstance(n.op, ast.Add) and (a.sort == "S" or a.kind == "str" or b.sort == "S" or b.kind == "str"):
+            return mkS(f"(str.++ {asS(a)} {asS(b)})")
         return mkI(f"({op} {asI(a)} {asI(b)})")
 
     def ev_Compare(self, n):
@@ -229,7 +229,7 @@ class SpecEval:
             return t if isinstance(op, ast.Eq) else Not(t)
         if isinstance(op, (ast.Is, ast.IsNot)):
             t = Eq(asV(a), asV(b))
-            if a.kind in ("list", "tuple", "dict") or b.kind in ("list", "tuple", "dict"):
+            if (a.kind in ("list", "tuple", "dict") or b.kind in ("list", "tuple", "dict")) and not getattr(self, "bound_vars", ()) :
                 self.e.ext_instance(asV(a), asV(b))
             return t if isinstance(op, ast.Is) else Not(t)
         if isinstance(op, (ast.In, ast.NotIn)):
@@ -294,6 +294,7 @@ class SpecEval:
                 lo = asI(self.ev(n.args[2])) if len(n.args) > 2 else "0"
                 q = fresh_name("q" + var)
                 sub = SpecEval(self.e, {**self.env, var: mkI(q)}, self.old_env, self.glob, self.old_state)
+                sub.bound_vars = tuple(getattr(self, "bound_vars", ())) + (q,)
                 body = asB(sub.ev(lam.body))
                 rng = f"(and (<= {lo} {q}) (< {q} {hi}))"
                 if f == "forall":
@@ -416,6 +417,19 @@ class SpecEval:
                 s = asV(self.ev(n.args[0]))
                 x = asV(self.ev(n.args[1]))
                 return mkB(f"(and (k_set {s}) (seq_has_pyeq (sitems {s}) (v_int (py_id {x})) 0))")
+            if f in ("all_members", "some_member"):
+                # quantification over the members of a list, in identity-membership form
+                s = _simp_seqof(f"(seqof {asV(self.ev(n.args[0]))})")
+                lam = n.args[1]
+                assert isinstance(lam, ast.Lambda)
+                var = lam.args.args[0].arg
+                q = fresh_name("m" + var)
+                sub = SpecEval(self.e, {**self.env, var: Val(q)}, self.old_env, self.glob, self.old_state)
+                sub.bound_vars = tuple(getattr(self, "bound_vars", ())) + (q,)
+                body = asB(sub.ev(lam.body))
+                if f == "all_members":
+                    return mkB(f"(forall (({q} V)) (! (=> (ismem {s} {q}) {body}) :pattern ((ismem {s} {q}))))")
+                return mkB(f"(exists (({q} V)) (and (ismem {s} {q}) {body}))")
             if f == "members_subset":
                 a = f"(seqof {asV(self.ev(n.args[0]))})"
                 b = f"(seqof {asV(self.ev(n.args[1]))})"
@@ -440,6 +454,10 @@ class SpecEval:
                     args.append({"V": asV, "B": asB, "I": asI, "S": asS}[s](v))
                 self.e.use_spec_fun(f)
                 return Val(f"({name} {' '.join(args)})" if args else name, res if res != "V" else "V")
+        if isinstance(n.func, ast.Attribute) and n.func.attr in ("startswith", "endswith") and len(n.args) == 1:
+            s = asS(self.ev(n.func.value))
+            p = asS(self.ev(n.args[0]))
+            return mkB(f"(str.prefixof {p} {s})" if n.func.attr == "startswith" else f"(str.suffixof {p} {s})")
         raise OutOfSubset(f"contract call {ast.unparse(n.func)}", n)
 
 SPEC_FUNS.update({
@@ -448,7 +466,7 @@ SPEC_FUNS.update({
     "props_accepts": (["V", "S"], "B", "props_accepts"),
     "outcome_of": (["V", "V"], "V", "outcome_of"),
     "d6_multiple": (["V", "V"], "B", "d6_multiple"),
-    "dflt": (["V"], "V", "dflt"), "prop_for": (["V", "S"], "V", "prop_for"),
+    "dflt": (["V"], "V", "dflt"), "ann": (["V"], "S", "ann"), "item_anns": (["V"], "V", "item_anns"), "prop_for": (["V", "S"], "V", "prop_for"),
     "vrejects": (["V", "V"], "B", "vrejects"), "validators_of": (["V"], "V", "validators_of"),
     "csem": (["V", "V"], "B", "csem"), "cbuild": (["V", "V"], "V", "cbuild"), "accepts_all": (["V", "V"], "B", "accepts_all"),
 })
